@@ -67,7 +67,7 @@ def observe(s: Session, chunks: list[bytes], eof: bool = True) -> dict[str, Any]
     }
 
 
-def judge(s: Session, stream: bytes, split: Any, expected: str | None) -> str | None:
+def judge(s: Session, stream: bytes, split: Any, expected: str | None, check_deliveries: bool = True) -> str | None:
     """Run the (corrupted) stream against a fresh session and compare with the reference receiver."""
     from aioesphomeapi.core import APIConnectionError
 
@@ -80,7 +80,7 @@ def judge(s: Session, stream: bytes, split: Any, expected: str | None) -> str | 
     o = observe(s, chunks)
     # (i) deliveries are a byte-exact prefix of what the device encrypted - exactly the reference's list
     exp_deliv = [(ids.get(t, f"?{t}"), pl) for t, pl, _e in ref["delivered"] if t in ids]
-    if o["delivered"] != exp_deliv:
+    if check_deliveries and o["delivered"] != exp_deliv:
         honest = s.plain
         is_prefix = o["delivered"] == honest[: len(o["delivered"])]
         return (f"delivered {[d[0] for d in o['delivered']]} ({'a prefix' if is_prefix else 'NOT a prefix'} of what the device sent), "
@@ -233,6 +233,27 @@ def case_job(args: tuple[Any, ...]) -> dict[str, Any]:
                         add(f"name:{nv}|{split_mode}", f"announced name variant {nv} ({split_mode}): {v}", desc="name:" + nv, split_mode=split_mode)
                 finally:
                     s.close()
+        # the server hello's name is absent or right, the authenticated name in the HelloResponse is another one
+        for nv in ("absent", "equal", "equal+mac"):
+            for hn in ("otherdev", "MyDev"):
+                for split_mode in ("answers-in-one-chunk", "frame-by-frame"):
+                    s = Session(nv, EXPECTED, APP, hello_name=hn)
+                    try:
+                        stream = s.stream()
+                        out["evals"] += 1
+                        out["failing"] += 1
+                        out["classes"].add("bad_name")
+                        # the device answers the hello request only after it has received it: a chunk never spans that point
+                        split: Any = s.barrier if split_mode == "answers-in-one-chunk" else sorted(set(s.ends()[:-1]) | {s.barrier})
+                        # (the answers to hello and login are awaited together and judged when both are in: what shares their chunk
+                        # reaches an observer registered on the raw connection - no client-level subscription can exist yet - so only
+                        # the verdict is compared here: closed, bad-name error, carrying the authenticated name)
+                        v = judge(s, stream, split, EXPECTED, check_deliveries=False)
+                        if v:
+                            add(f"hello-name:{nv}:{hn}|{split_mode}", f"server hello name {nv}, HelloResponse name {hn!r} ({split_mode}): {v}",
+                                desc=f"hello-name:{nv}:{hn}", split_mode=split_mode)
+                    finally:
+                        s.close()
     elif kind == "wrong-psk":
         for split_mode in ("one-chunk", "frame-by-frame"):
             s = Session("equal", EXPECTED, APP, device_psk=seed_bytes("another-psk"))
